@@ -53,6 +53,8 @@ pub struct Pred {
     pub rows: Vec<Vec<f64>>,
     /// dataset forms: the records handed back equal the input bit-for-bit
     pub records_ok: bool,
+    /// shape of the returned target array (tells (0, 2) from (0, 0) on an empty batch)
+    pub shape: Vec<usize>,
 }
 
 pub trait Subject: Send + Sync {
@@ -211,11 +213,11 @@ macro_rules! impl_subject {
                     Form::RefArray => {
                         let a: Array2<F> = owned_layout(x, layout);
                         let y: $out<E> = m.predict(&a);
-                        Pred { rows: $rows(&y, conv), records_ok: true }
+                        Pred { rows: $rows(&y, conv), records_ok: true, shape: y.shape().to_vec() }
                     }
                     Form::RefView => with_layout::<F, _>(x, layout, |v| {
                         let y: $out<E> = m.predict(&v);
-                        Pred { rows: $rows(&y, conv), records_ok: true }
+                        Pred { rows: $rows(&y, conv), records_ok: true, shape: y.shape().to_vec() }
                     }),
                     Form::OwnedArray => {
                         let a: Array2<F> = owned_layout(x, layout);
@@ -225,6 +227,7 @@ macro_rules! impl_subject {
                             rows: $rows(ds.targets(), conv),
                             records_ok: same_bits(&ds.records().view(), &keep.view())
                                 && ds.records().strides() == keep.strides(),
+                            shape: ds.targets().shape().to_vec(),
                         }
                     }
                     Form::OwnedView => with_layout::<F, _>(x, layout, |v| {
@@ -233,6 +236,7 @@ macro_rules! impl_subject {
                             rows: $rows(ds.targets(), conv),
                             records_ok: same_bits(&ds.records().view(), &v)
                                 && ds.records().as_ptr() == v.as_ptr(),
+                            shape: ds.targets().shape().to_vec(),
                         }
                     }),
                     Form::RefDataset => {
@@ -244,7 +248,7 @@ macro_rules! impl_subject {
                         // carry (three named target columns, weights, feature names)
                         let y: $out<E> = m.predict(&decorated(a));
                         let second = $rows(&y, conv);
-                        Pred { rows: if same_rows(&first, &second) { first } else { second }, records_ok: true }
+                        Pred { rows: if same_rows(&first, &second) { first } else { second }, records_ok: true, shape: y.shape().to_vec() }
                     }
                     Form::OwnedDataset => {
                         let a: Array2<F> = owned_layout(x, layout);
@@ -259,6 +263,7 @@ macro_rules! impl_subject {
                         Pred {
                             rows: if same_rows(&first, &second) { first } else { second },
                             records_ok: ok1 && ok2,
+                            shape: out.targets().shape().to_vec(),
                         }
                     }
                     Form::Inplace => {
@@ -278,7 +283,7 @@ macro_rules! impl_subject {
                         let second = $rows(&y, conv);
                         let same = first.len() == second.len()
                             && first.iter().zip(second.iter()).all(|(r, q)| r.iter().zip(q.iter()).all(|(u, v)| u.to_bits() == v.to_bits()));
-                        Pred { rows: if same { first } else { second }, records_ok: same }
+                        Pred { rows: if same { first } else { second }, records_ok: same, shape: y.shape().to_vec() }
                     }
                 })
             }
